@@ -58,11 +58,13 @@ def _link_tree(src_root, dst_root, replace=None):
                 os.symlink(src_root / extra, dst_root / extra)
 
 
-def _finding_keys(prop, root, tier="quick"):
+def _finding_keys(prop, root, tier="quick", complete=False):
     from . import report
     from .cli import analyse
 
     ctx, _ = analyse(prop, tier, root)
+    if complete and ctx.incomplete is not None:
+        raise ctx.incomplete
     return sorted({(f.rule, f.key) for f in ctx.findings})
 
 
@@ -130,7 +132,7 @@ def _run_normalised(args):
             replace[rel] = ast.unparse(tree) + "\n"
         _link_tree(repo_root, root, replace)
         try:
-            return "ran", _finding_keys(prop, root)
+            return "ran", _finding_keys(prop, root, complete=True)
         except AnalysisError as e:
             return "analysis-error", str(e)[:300]
     finally:
